@@ -4,7 +4,8 @@ import LabtechModel.Driver.LdHex
 `LOG proxy pre=<hex> ops=<op>,…`            op: `w<hex>` write · `f` flush
    → `ok bufs=x<hex>,… out=x<hex>,…`          (final `bufs`; every `logger_func` message in order)
 `LOG run n=<workers> w=<ems>;<ems>;… sched=<round>/<round>/… [cof=<0|1> fail=<w>,<w>,…]`
-   ems: `,`-separated `l<hex>` logger.info · `o<hex>` stdout.write · `e<hex>` stderr.write · `O` / `E` flush
+   ems: `,`-separated `l<hex>` logger.info · `o<hex>` stdout.write · `e<hex>` stderr.write · `O` / `E` flush;
+        a final `K`: the worker's process dies hard there (no `finally` flush)
    round: `A|B|C`, each a `,`-separated list of `a<w>.<k>` (advance) / `f<w>` (finish)
    (`cof`: continue_on_failure, default 1; `fail`: workers whose outcome is an exception)
    → `ok exited=<0 running | 1 returned | 2:<w> LabError for w> delivered=<w>:<I|E>:x<hex>,… left=<records still queued> todo=<records not yet put>`
@@ -51,6 +52,16 @@ def parseEmit (tok : String) : Option Emit :=
   | 'e' :: h => (decode (String.ofList h)).map .err
   | _ => none
 
+/-- a worker's emissions; a final `K` token: the process dies hard at that point (`true`) -/
+def parseWorker (w : String) : Option (List Emit × Bool) :=
+  let toks := splitList "," w
+  match toks.getLast? with
+  | some "K" => (toks.dropLast.mapM parseEmit).map (fun e => (e, true))
+  | _ => (toks.mapM parseEmit).map (fun e => (e, false))
+
+def recordsOf (x : List Emit × Bool) : List Rec :=
+  if x.2 then diedRecords x.1 else workerRecords x.1
+
 def parseEnv (tok : String) : Option Env :=
   match tok.toList with
   | 'f' :: w => (String.ofList w).toNat?.map .finish
@@ -71,10 +82,10 @@ def showRec (x : Nat × Rec) : String :=
   s!"{x.1}:{if x.2.isError then "E" else "I"}:x{encode x.2.text}"
 
 def handleRun (m : List (String × String)) : String :=
-  let parsed : Option (Nat × List (List Emit) × List Round × Bool × List Nat) := do
+  let parsed : Option (Nat × List (List Emit × Bool) × List Round × Bool × List Nat) := do
     let n ← (← get m "n").toNat?
     let wstr ← get m "w"
-    let ws ← (if n == 0 then some [] else (wstr.splitOn ";").mapM (fun w => (splitList "," w).mapM parseEmit))
+    let ws ← (if n == 0 then some [] else (wstr.splitOn ";").mapM parseWorker)
     let sched ← (splitList "/" (← get m "sched")).mapM parseRound
     let cof ← match get m "cof" with
       | none => some true
@@ -88,7 +99,7 @@ def handleRun (m : List (String × String)) : String :=
   match parsed with
   | none => "bad-op"
   | some (n, ws, sched, cof, fail) =>
-    let r := runLoop cof (fun w => fail.contains w) (init n (fun w => workerRecords (ws.getD w []))) sched
+    let r := runLoop cof (fun w => fail.contains w) (init n (fun w => recordsOf (ws.getD w ([], false)))) sched
     let s := r.1
     let ex := match r.2 with
       | .running => "0"
